@@ -391,8 +391,10 @@ def lookup(chm, path):
     if v is None:
         return ("absent",)
     if isinstance(v, Mask):
-        fl = v.primal_flag() if hasattr(v, "primal_flag") else v.flag
-        if not bool(np.asarray(fl)):
+        fl = np.asarray(v.primal_flag() if hasattr(v, "primal_flag") else v.flag)
+        if fl.size != 1:
+            return ("err", "vector-flag")      # the path stops above an index level: not a single choice
+        if not bool(fl.reshape(())):
             return ("absent",)
         v = v.value
     try:
